@@ -12,10 +12,11 @@
    small value, a different order of two panics) are settled by case analysis on the comparison itself
    ([ocase]) or on the small discriminating values (word index 0/1, list shape).
 
-   Extra hypotheses beyond the parameter types (reported as findings):
-     g_sb_get_rank_ok    block_id <= 11   (for block_id >= 12 the source shifts a u128 by >= 128 bits:
-                                           Fault Overflow; the hand model returns a value)
-     g_sb_get_rank_ok / g_sb_get_superblock_counter_ok   words below 2^128 (type invariant of [u128; 4]) *)
+   Extra hypotheses beyond the parameter types (reported as findings): none for SuperblockPlain any more.
+     g_sb_get_rank_ok    used to need block_id <= 11 (for block_id >= 12 the source shifts a u128 by >= 128
+                         bits: Fault Overflow, where the hand model returned a value); Model/RSQ.v sb_get_rank
+                         now carries the checks and truncations of the source and the equality is
+                         unconditional (the word/parameter bounds are kept in the statement, unused). *)
 (* this file: the shared helper lemmas and tactics *)
 From Coq Require Import ZArith Lia ZifyBool ZifyN.
 From QwtModel Require Import ListX Consts SelTable Words RSQ.
@@ -78,6 +79,34 @@ Proof.
   inversion HF; subst. destruct (i =? 0); [now inversion E; subst|]. now apply (IH (N.pred i)).
 Qed.
 
+Lemma idx_Forall {A} (P : A -> Prop) : forall (l : list A) i a, Forall P l -> idx l i = Val a -> P a.
+Proof.
+  unfold idx. induction l as [|x l IH]; intros i a HF E; cbn [nthN] in E; [discriminate|].
+  inversion HF; subst. destruct (i =? 0); [now inversion E; subst|]. now apply (IH (N.pred i)).
+Qed.
+
+(* to be used instead of [injection] / [inversion], which normalise the arguments of Val (and do not come
+   back when one of them is a shift by a large literal) *)
+Lemma Val_inj {A} (a b : A) : Val a = Val b -> a = b.
+Proof. intros H. now injection H. Qed.
+
+(* `let! x := e in Val x` is e *)
+Lemma bind_Val_r {A} (x : outcome A) : bind x (fun a => Val a) = x.
+Proof. now destruct x. Qed.
+
+Lemma osub_Val a b v : osub a b = Val v -> v = a - b /\ b <= a.
+Proof. unfold osub. destruct (N.leb_spec b a); intros E; [now inversion E|discriminate]. Qed.
+
+(* `let mut r = 0; r += x` *)
+Lemma oadd_0_l w b : b < 2 ^ w -> oadd w 0 b = Val b.
+Proof. intros H. unfold oadd. rewrite N.add_0_l. now destruct (N.ltb_spec b (2 ^ w)); [|lia]. Qed.
+
+Lemma div_lt_bound a b c : a < c -> a / b < c.
+Proof.
+  intros H. destruct (N.eq_dec b 0) as [-> | Hb]; [destruct a; cbn; lia|].
+  apply N.div_lt_upper_bound; [exact Hb|]. nia.
+Qed.
+
 Lemma land_mod_low x : N.land (x mod 2 ^ 64) 4095 = N.land x 4095.
 Proof.
   change 4095 with (N.ones 12). apply N.bits_inj. intros n. rewrite !N.land_spec.
@@ -97,6 +126,15 @@ Ltac closedN t :=
   | N.sub ?a ?b => closedN a; closedN b
   | N.pow ?a ?b => closedN a; closedN b
   | _ => is_const t; let v := eval cbv delta [t] in t in closedN v
+  end.
+
+(* a quotient / remainder of two closed numerals (e.g. SUPERBLOCK_SIZE / BLOCK_SIZE) is replaced by its value *)
+Ltac fold_consts :=
+  repeat match goal with
+  | |- context [N.div ?a ?b] => closedN a; closedN b;
+      let v := eval vm_compute in (N.div a b) in change (N.div a b) with v
+  | |- context [N.modulo ?a ?b] => closedN a; closedN b;
+      let v := eval vm_compute in (N.modulo a b) in change (N.modulo a b) with v
   end.
 
 (* an operation whose side condition is decided by computation alone (literal shift amount, product of
